@@ -34,6 +34,7 @@ type Case struct {
 	Extra    map[string]any       `json:"extra,omitempty"`
 	Prov     *ProvCase            `json:"prov,omitempty"` // class P: one step provider driven directly
 	Prep     *PrepCase            `json:"prep,omitempty"` // preparation-only case (C10, C16)
+	Eng      *EngCase             `json:"eng,omitempty"`  // class E: engine API from files on disk (C20)
 }
 
 // ShapeKey is the coarse signature of the workload (distinctness measure of the evidence).
@@ -82,6 +83,10 @@ func (c *Case) Spec(journal bool) harness.Spec {
 	}
 	if c.Prep != nil {
 		sp.Body = c.Prep.body(c)
+		return sp
+	}
+	if c.Eng != nil {
+		sp.Body = c.Eng.body(c)
 		return sp
 	}
 	if len(sp.Clients) == 0 {
@@ -324,6 +329,9 @@ func (st *Stats) Add(c *Case, r *harness.Result) {
 			reached = true
 			break
 		}
+	}
+	if c.Eng != nil {
+		ov = append(ov, fmt.Sprint(*c.Eng))
 	}
 	if c.Prep != nil {
 		reached = true
